@@ -10,11 +10,11 @@ import LocustModel.Store.C07Machine
          ops : comma separated  N | A:<w>:<int> | D:<t> | I:<w> | P:<i> | L:<w> | Z:<t>:<n> | C:<t>:<n>:<0|1> | U | H:<0|1>:<total>
          sec : u8:x<hex> | bv:x<hex> | lz4:x<hex> | pco:x<hex> | u16:<nats> | u32:… | u64:… | i64:<ints> | f64:<hex16,…> | null:<n>
          orig0 : the section the lz4/pco library returns for section 0 (the driver's `dec`)
-       output `dec`:  <decode2: type + cells> TAB <decodeQ: type + cells> [TAB finding]
+       output `dec`:  <decode2: type + cells> TAB <decodeQ: type + cells>
        output `raw`:  <decode2: type + raw data + null map> TAB SKIP
     reb  <k> <val_1> … <val_k>        decoded values pushed by the compaction loop into one ColumnBuffer
          val : I64|<ints>|- , NI64|<ints>|x<hex> , F64|…, NF64|…, Str|<x..>,…|-, NStr|…|x<hex>, Null|<n>|-
-       output:  <cells of the rebuilt buffer (model of the push_* sequence)> TAB <concatenated cells (spec)> [TAB finding]
+       output:  <cells of the rebuilt buffer (model of the push_* sequence)> TAB <concatenated cells (spec)>
     hist <history>                    see LocustModel/Store/C07Machine.lean (`parseHist`)
 -/
 namespace LM.DrvC07
@@ -121,14 +121,6 @@ def showRaw (r : Except Fault SVal) : String :=
     | .null n => s!"Null {n} -"
     | d => tyName v ++ " " ++ toString (dataLen d)
 
-/-- which open finding about the free `decode` covers this column image (classifiers: `LM.D2`) -/
-def classifyCol (ops : List Op) : String :=
-  if hasUnhex ops then "compaction-hexpacked-todo"
-  else if lz4Narrow ops then "compaction-decode-lz4-narrow-type"
-  else if unpackCompressed ops then "compaction-decode-unpack-section0"
-  else if elementwiseAfterNullable ops then "compaction-decode-nullmap-dropped"
-  else ""
-
 def parseCol (toks : List String) : Option (Col × (Section → Section) × List Cell) :=
   match toks with
   | opsT :: nT :: rest => do
@@ -160,8 +152,7 @@ def stepDec (raw : Bool) (toks : List String) : String :=
       let qcells : Option (List Cell) := match q with | .ok v => some (cellsOf v) | .error _ => none
       let mtxt := if !builderShape c.ops then "NOT-A-BUILDER-SHAPE " ++ showVal m
         else if qcells = some pushed then showVal m else "SPEC-MODEL-DIFFERS-FROM-PUSHED " ++ showVal q
-      let k := classifyCol c.ops
-      mtxt ++ "\t" ++ showVal q ++ (if k = "" then "" else "\t" ++ k)
+      mtxt ++ "\t" ++ showVal q
 
 /-! `reb` lines -/
 
@@ -191,8 +182,7 @@ def stepReb (raw : Bool) (toks : List String) : String :=
           s!"{kind} {b.length} " ++ (match b.present with | some p => showBytesNat p | none => "-") ++ "\tSKIP"
         else
           let spec := vs.flatMap cellsOf
-          let k := if dropsNullMap {} vs then "\tcompaction-builder-nullmap-dropped" else ""
-          s!"{b.length} " ++ showList showCell b.cells ++ "\t" ++ s!"{spec.length} " ++ showList showCell spec ++ k
+          s!"{b.length} " ++ showList showCell b.cells ++ "\t" ++ s!"{spec.length} " ++ showList showCell spec
   | _ => "bad-op\tbad-op"
 
 def step (line : String) : String :=
